@@ -446,4 +446,116 @@ theorem attinv_step_shmdt (g : G) (t : Tid) (intr : Bool) (c c' : Call) (s : Shm
     | bad => rw [hsa] at ha; simp [addrOpt] at ha
     | «at» a' => rw [hsa] at ha; simp only [addrOpt, Option.some.injEq] at ha; rw [ha]
 
+/-- a completion that stores a segment struct (of `p_shm_new`, or of a lock / unlock) -/
+theorem attinv_step_store (g : G) (t : Tid) (intr : Bool) (c : Call) (hid : Hid) (m : PShm) (ret : Ret) (hi : AttInv g)
+    (hc : g.calls t = some c) (hproc : (sysStep (g.pidOf t) intr c.next g.os c.name).1.procs = g.os.procs)
+    (hr : c.after (sysStep (g.pidOf t) intr c.next g.os c.name).2 = .done (ret, some (hid, some (.shm m))))
+    (hatt : attached (g.os.procs (g.pidOf t)) m) (hcl : Clear g.hs (g.pidOf t) m.addr (some hid)) : AttInv (g.step t intr) := by
+  have hproc' : (g.step t intr).os.procs = g.os.procs := by rw [step_os g t intr c hc]; exact hproc
+  have hhs : (g.step t intr).hs = fun h => if h = hid then some (g.pidOf t, Handle.shm m) else g.hs h := by
+    simp [G.step, hc, hr, G.setHandle, G.setRet, G.setCall]
+  have hcalls : (g.step t intr).calls = fun t' => if t' = t then none else g.calls t' := by
+    simp [G.step, hc, hr, G.setHandle, G.setRet, G.setCall]
+  have hpid : (g.step t intr).pidOf = g.pidOf := by
+    simp [G.step, hc, hr, G.setHandle, G.setRet, G.setCall]
+  refine ⟨by rw [hpid]; exact hi.inj, by rw [hproc']; exact hi.fresh, ?_, ?_, ?_⟩
+  · intro h p m' hm'
+    rw [hproc']
+    rw [hhs] at hm'
+    simp only at hm'
+    split at hm'
+    · simp only [Option.some.injEq, Prod.mk.injEq, Handle.shm.injEq] at hm'
+      obtain ⟨rfl, rfl⟩ := hm'
+      exact hatt
+    · exact hi.hs h p m' hm'
+  · intro h1 h2 p m1 m2 e1 e2 ea
+    rw [hhs] at e1 e2
+    simp only at e1 e2
+    split at e1 <;> split at e2
+    · rename_i a b; rw [a, b]
+    · rename_i a b
+      simp only [Option.some.injEq, Prod.mk.injEq, Handle.shm.injEq] at e1
+      obtain ⟨rfl, rfl⟩ := e1
+      exact absurd ea.symm (hcl h2 m2 e2 (by simpa using b))
+    · rename_i a b
+      simp only [Option.some.injEq, Prod.mk.injEq, Handle.shm.injEq] at e2
+      obtain ⟨rfl, rfl⟩ := e2
+      exact absurd ea (hcl h1 m1 e1 (by simpa using a))
+    · exact hi.distinct h1 h2 p m1 m2 e1 e2 ea
+  · intro t' c'' h'
+    rw [hcalls] at h'
+    simp only at h'
+    split at h'
+    · cases h'
+    · rename_i e
+      have hp : g.pidOf t' ≠ g.pidOf t := fun e' => e (hi.inj t' t e')
+      rw [hproc', hpid]
+      refine ainv_mono _ g.hs _ _ c'' ?_ (hi.calls t' c'' h')
+      intro h m0 hm0
+      rw [hhs] at hm0
+      simp only at hm0
+      split at hm0
+      · simp only [Option.some.injEq, Prod.mk.injEq] at hm0
+        exact absurd hm0.1.symm hp
+      · exact ⟨m0, hm0, rfl⟩
+
+theorem hs_at (g : G) (hi : AttInv g) (p : Pid) : ∀ h m, g.hs h = some (p, .shm m) → ∃ a, m.addr = .at a := by
+  intro h m hm
+  obtain ⟨a, _, e, _, _⟩ := hi.hs h p m hm
+  exact ⟨a, e⟩
+
+/-- the `shmat` step of `p_shm_new` -/
+theorem attinv_step_shmat (g : G) (t : Tid) (intr : Bool) (hid : Hid) (s : ShmSt) (hi : AttInv g)
+    (hc : g.calls t = some (.shmNew hid s)) (hpc : s.pc = .cAt) : AttInv (g.step t intr) := by
+  obtain ⟨isNew, h, req, pc, built, isExists, failing⟩ := s
+  simp only at hpc
+  subst hpc
+  have hnull : h.addr = .null := by have := hi.calls t _ hc; simpa [Call.ainv] using this
+  cases ha : segAlive g.os h.hdl with
+  | none =>
+    have hstep : sysStep (g.pidOf t) intr (Call.shmNew hid ⟨isNew, h, req, .cAt, built, isExists, failing⟩).next g.os
+        (Call.shmNew hid ⟨isNew, h, req, .cAt, built, isExists, failing⟩).name = (g.os, .err .EINVAL) := by
+      simp [Call.next, ShmSt.next, sysStep, Sys.interruptible, shmatF, ha]
+    refine attinv_step_plain g t intr _ hi hc (by rw [hstep]) ?_
+    rw [hstep]
+    simp only [Call.after, ShmSt.after, ShmSt.fail, errOf, ShmSt.startClean]
+    simp only [bne_iff_ne, ne_eq, reduceCtorEq, not_false_eq_true, if_true, Call.ainv]
+    exact ⟨rfl, clear_null g.hs _ none _ (Or.inr rfl) (hs_at g hi _)⟩
+  | some i =>
+    obtain ⟨hh, hal⟩ := segAlive_some g.os h.hdl i ha
+    have hstep : sysStep (g.pidOf t) intr (Call.shmNew hid ⟨isNew, h, req, .cAt, built, isExists, failing⟩).next g.os
+        (Call.shmNew hid ⟨isNew, h, req, .cAt, built, isExists, failing⟩).name =
+        (shmatF g.os (g.pidOf t) h.hdl (if h.ro = true then shmatFlagsRO else shmatFlagsRW)) := by
+      simp [Call.next, ShmSt.next, sysStep, Sys.interruptible]
+    have hres : (shmatF g.os (g.pidOf t) h.hdl (if h.ro = true then shmatFlagsRO else shmatFlagsRW)).2 = .ok (g.os.procs (g.pidOf t)).nextAddr := by
+      simp [shmatF, ha]
+    have hprocs : ((shmatF g.os (g.pidOf t) h.hdl (if h.ro = true then shmatFlagsRO else shmatFlagsRW)).1.procs (g.pidOf t)) =
+        { (g.os.procs (g.pidOf t)) with
+          atts := ⟨(g.os.procs (g.pidOf t)).nextAddr, i, hasFlag (if h.ro = true then shmatFlagsRO else shmatFlagsRW) SHM_RDONLY && (if h.ro = true then shmatFlagsRO else shmatFlagsRW) != 0⟩ :: (g.os.procs (g.pidOf t)).atts,
+          nextAddr := (g.os.procs (g.pidOf t)).nextAddr + 1 } := by
+      simp [shmatF, ha, OS.setProc, OS.setSeg]
+    refine attinv_step_procs g t intr _ (.shmNew hid ⟨isNew, { h with addr := .at (g.os.procs (g.pidOf t)).nextAddr }, req, .cSem (ShmSt.lockSt ⟨isNew, h, req, .cAt, built, isExists, failing⟩), built, isExists, failing⟩) hi hc ?_ ?_ ?_ ?_
+    · rw [hstep, hres]; simp [Call.after, ShmSt.after, ShmSt.lockSt]
+    · intro att hatt
+      rw [hstep, hprocs] at hatt ⊢
+      simp only [List.mem_cons] at hatt ⊢
+      rcases hatt with e | e
+      · rw [e]; simp
+      · have := hi.fresh _ att e; omega
+    · intro h' m hm
+      exact attached_sysStep (g.pidOf t) (g.pidOf t) intr _ g.os _ m (hi.hs h' _ m hm) (hi.fresh _)
+        (by intro _ a e; simp [Call.next, ShmSt.next] at e)
+    · rw [hstep, hprocs]
+      simp only [Call.ainv]
+      refine ⟨⟨(g.os.procs (g.pidOf t)).nextAddr, ⟨(g.os.procs (g.pidOf t)).nextAddr, i, hasFlag (if h.ro = true then shmatFlagsRO else shmatFlagsRW) SHM_RDONLY && (if h.ro = true then shmatFlagsRO else shmatFlagsRW) != 0⟩, rfl, ?_, ?_⟩, ?_⟩
+      · simp [findAtt]
+      · simpa using hh
+      · intro h' m' hm' _ e
+        obtain ⟨a, att, e1, e2, _⟩ := hi.hs h' _ m' hm'
+        have hlt := hi.fresh _ att (findAtt_mem _ a att e2).1
+        have hadr := (findAtt_mem _ a att e2).2
+        rw [e1] at e
+        simp only [Addr.at.injEq] at e
+        omega
+
 end PV.SysV
